@@ -119,7 +119,7 @@ def decorate(scs, *, seed, calls_choices=(("invoke",), ("stream",), ("invoke", "
             sc["rmax"] = 1 + rnd.randrange(len(sc["nodes"]) + 3)
         if state_frac and not sc.get("state") and rnd.random() < state_frac:
             sc["state"] = True
-        if sc["mode"] in ("wf", "dag") and len(sc["nodes"]) > 1 and rnd.random() < delay_frac:
+        if sc["mode"] in ("wf", "dag") and len(sc["nodes"]) > 1 and "delay" not in sc and rnd.random() < delay_frac:
             # completion order of parallel node bodies (matters for eager execution): a rank per node, larger finishes later
             sc["delay"] = {n: rnd.randrange(4) for n in sc["nodes"]}
         for inner in (sc.get("sub") or {}).values():
